@@ -224,6 +224,24 @@ def zygote_main():
     import dataset.table  # noqa: F401
     import sqlalchemy.sql.ddl  # noqa: F401
     import androguard.session  # noqa: F401
+    # warm-up: the first create_engine()/connect/reflect imports the SQLite dialect and compiles caches (~0.2 s); do it once here on
+    # a private in-memory database (own table name), then dispose it, so that forked children start connection-free but warm
+    try:
+        import gc
+        import dataset
+        wdb = dataset.connect("sqlite://")
+        wt = wdb["vf_warmup"]
+        len(wt)
+        wt.insert(dict(id=0))
+        len(wt)
+        wdb.close()
+        ws = androguard.session.Session(db_url="sqlite://")  # same, through the constructor itself (private in-memory database)
+        ws.db.close()
+        del wdb, wt, ws
+        gc.collect()
+        gc.freeze()
+    except Exception:
+        pass
     out = os.fdopen(os.dup(1), "w")
     os.dup2(2, 1)  # stray prints of the real code go to stderr, never into the protocol
     out.write(json.dumps({"ready": True, "session_file": androguard.session.__file__}) + "\n")
